@@ -110,6 +110,14 @@ example : parseSdlTextT (SdlPrintTA.printSchemaTA {} shop [("", [{ name := "tag"
   print_schema_text_parses_custom {} shop _ (by decide)
 example : SdlPrintTA.needsSchemaBlockA shop {} [("", [{ name := "tag" }])] ≠ needsSchemaBlock shop := by decide
 
+/-- `printSchemaTA_conservative` — with a falsy `include_custom_schema_directives` the model with directives prints exactly
+    what the directive-free model `printSchemaT` prints: `print_schema_text_parses` is the `custom = false` instance -/
+theorem printSchemaTA_conservative (c : SdlPrintTA.OptsA) (hc : c.custom = false) (s : SchemaD) (apps : Apps) :
+    SdlPrintTA.printSchemaTA c s apps = SdlPrintT.printSchemaT c.base s := printSchemaTA_off hc s apps
+
+example : SdlPrintTA.printSchemaTA { custom := false } plainShop shopApps = SdlPrintT.printSchemaT {} plainShop :=
+  printSchemaTA_conservative _ rfl _ _
+
 /-- the quirk, as text: nodes present but none printed ⇒ a lone space -/
 example : SdlPrintTA.printType plainShop { whitelist := some ["nope"] } shopApps
     { kind := .scalar, name := "Item" } = SdlPrintT.T "scalar Item " := by decide
